@@ -156,10 +156,15 @@ AbortRegistered(b, doomed) ==
 
 TpcCleanup(b) == [b EXCEPT !.cn.joined = FALSE, !.cn.reg = <<>>, !.cn.creating = NoCre]
 
+\* TmpStore.close() removes the savepoint blob directory.  A blob that was activated from a savepoint file found
+\* by name although the index does not list it (SpBlobByName) keeps pointing at the removed file.
+Dangle(b) ==
+  [b EXCEPT !.ob = [o \in All |-> IF o \in Blobs /\ b.ob[o].own /\ b.ob[o].flag = "clean" /\ b.tmp.blob[o] # "-"
+                                  THEN [b.ob[o] EXCEPT !.st = St("nofile", <<>>)] ELSE b.ob[o]]]
 \* Connection._abort_savepoint()
 AbortSavepoint(b) ==
   LET b1 == InvalidateCreating(b, CreSet(b.tmp.cre))
-      b2 == InvalidateSet(b1, IdxSet(b.tmp.index))
+      b2 == Dangle(InvalidateSet(b1, IdxSet(b.tmp.index)))
   IN [b2 EXCEPT !.tmp = NoTmp]
 
 \* Connection.abort(transaction)
@@ -394,7 +399,7 @@ SpPrepared(b0) ==     \* after savepoint(): _storage = normal, _savepoint_storag
   LET b == IF InvalidateDoomed THEN b0
            ELSE [b0 EXCEPT !.ob = [o \in All |-> IF b0.tmp.cre[o] # "-" /\ b0.ob[o].cached THEN Revive(b0, o) ELSE b0.ob[o]]]
   IN    \* (a blob record: storeBlob, then self._cache.invalidate(oid))
-  [InvalidateSet(b, IdxSet(b.tmp.index) \cap Blobs)
+  [Dangle(InvalidateSet(b, IdxSet(b.tmp.index) \cap Blobs))
      EXCEPT !.cn.modified = @ \cup IdxSet(b.tmp.index),
             !.cn.creating = [o \in All |-> IF b.tmp.cre[o] # "-" THEN b.tmp.cre[o] ELSE @[o]],
             !.tmp = NoTmp]
